@@ -96,9 +96,11 @@ def alphabet(seed):
            ['upd_arr', f'{ALL}/so/k', [1.1, 2.2, 3.3, 4.4]], ['upd_arr', f'{ALL}/so/x', [0.11, 0.22, 0.33, 0.44]]]
     if seed == 'flat':
         ops += [['upd_edge', list(e1), 7.0], ['upd_edge', ['dd/so/x', 'a/to/u'], -1.25],
-                ['add_matrix'], ['upd_edge', ['dd/so/x', 'cc/to/u'], 4.5]]
+                ['add_matrix'], ['upd_edge', ['dd/so/x', 'cc/to/u'], 4.5],
+                ['derive_upd', list(e1), 9.5], ['derive_keep']]
     else:
-        ops += [['upd_edge', ['c2/dd/so/x', 'c1/a/to/u'], -1.25], ['upd', 'c1/all/so/c', 0.7]]
+        ops += [['upd_edge', ['c2/dd/so/x', 'c1/a/to/u'], -1.25], ['upd', 'c1/all/so/c', 0.7],
+                ['derive_upd', ['c2/dd/so/x', 'c1/a/to/u'], 9.5], ['derive_keep']]
     ops += [['apply_nv', f'{A}/so/k', 9.0], ['apply_nv', f'{D}/so/x', 0.77]]
     return ops
 
@@ -132,7 +134,7 @@ def describe(tier, seed):
                     'OperatorTemplate objects (flat, depth-1, depth-1 with one sub-circuit object used twice, depth-2 with one '
                     'mid-level circuit object used twice, flat ring whose edges share one EdgeTemplate with per-edge operator values); every history of <=2 (thorough 3) operations from '
                     '{update_var scalar / wildcard / per-node array on constants, initial values and input defaults, '
-                    'update_var(edge_vars) on weights and edge-operator values, apply(node_values)}; after every history the compiled arguments, initial '
+                    'update_var(edge_vars) on weights and edge-operator values, apply(node_values), deriving a circuit with an extra edge (and updating an inherited edge of it / keeping it while the parent changes)}; after every history the compiled arguments, initial '
                     'state and edge weights (vectorize on/off) must equal a plain dict reference model; apply(node_values) '
                     'must not persist; non-trivial = history with >= 1 op',
             'bounds': {'ops': 2 if tier == 'quick' else 3}}
@@ -176,6 +178,7 @@ def run_case(case):
         res['ok'] = False
         return res
     pending_nv = None
+    kept = []
     for i, op in enumerate(case['history']):
         kind = op[0]
         try:
@@ -201,6 +204,19 @@ def run_case(case):
             elif kind == 'upd_eop':
                 c.update_var(edge_vars=[(op[1][0], op[1][1], {f'eop/{op[2]}': op[3]})])
                 edges[tuple(op[1])][op[2]] = op[3]
+            elif kind in ('derive_upd', 'derive_keep'):
+                # a circuit derived with an additional edge owns its edges: updating an inherited edge of the derived
+                # circuit leaves this one alone (derive_upd), and later updates of this one leave the derived one alone
+                new_edge = (f'{nodes[1]}/so/x', f'{nodes[-1]}/to/u', None, {'weight': 0.3})
+                d = c.update_template(edges=[new_edge])
+                sig['features'] = sorted(set(sig['features']) | {'derived_circuit'})
+                if kind == 'derive_upd':
+                    if tuple(op[1]) not in edges:
+                        res.update(rejected=True, ok=True, outcome='edge_not_present')
+                        return res
+                    d.update_var(edge_vars=[(op[1][0], op[1][1], {'weight': op[2]})])
+                else:
+                    kept.append((d, dict(ref), {k_: dict(v_) for k_, v_ in edges.items()}, new_edge))
             elif kind == 'add_matrix':
                 if ('dd/so/x', 'cc/to/u') in edges:
                     res['rejected'] = True
@@ -248,6 +264,27 @@ def run_case(case):
         g = float(dy[C.position(f'{n}/to/v')[0]])
         if abs(g - exp) > 1e-10:
             return viol('input_or_weight_wrong', node=n, got=g, expected=exp, history=case['history'])
+    # derived circuits kept from earlier in the history still have the values they had when they were derived
+    for d, dref, dedges, new_edge in kept:
+        try:
+            Cd, gotd = observe(d, nodes, case['vectorize'])
+            dyd = Cd.call(Cd.y0().astype(float), t=0)
+        except Exception as e:
+            sig['exc'] = type(e).__name__
+            return viol('raises', step='observe_derived', detail=f'{type(e).__name__}: {e}'[:200])
+        bad = {p: (gotd[p], dref[p]) for p in gotd if gotd[p] is not None and abs(gotd[p] - dref[p]) > 1e-12}
+        if bad:
+            return viol('derived_circuit_follows_parent', wrong=bad, history=case['history'])
+        dedges = dict(dedges)
+        key = (new_edge[0], new_edge[1])
+        dedges[key] = {'weight': dedges.get(key, {'weight': 0.0})['weight'] + 0.3} if key in dedges else {'weight': 0.3}
+        for n in nodes:
+            inc = [(s_, e) for (s_, t_), e in dedges.items() if t_ == f'{n}/to/u']
+            u = sum(e['weight'] * dref[s_] for s_, e in inc) if inc else dref[f'{n}/to/u']
+            exp = -dref[f'{n}/to/v'] + u
+            g = float(dyd[Cd.position(f'{n}/to/v')[0]])
+            if abs(g - exp) > 1e-10:
+                return viol('derived_circuit_edges_follow_parent', node=n, got=g, expected=exp, history=case['history'])
     # the same template object compiled in place, an initial value updated, compiled in place again
     if not any(o[0] == 'apply_nv' for o in case['history']):
         from .. import impl
